@@ -51,7 +51,7 @@ TRUSTED = [
 REQUIRED_BUCKETS = ["doc/valid", "doc/reader-ok", "num/exponent-repr-small", "num/exponent-repr-large", "num/length<1e-4",
                     "mutant/valid", "mutant/invalid", "mutant/swap", "mutant/number", "mutant/ref", "mutant/id", "mutant/enum",
                     "builder/lanelet", "builder/dynamicObstacle", "builder/state", "precision/1", "precision/12",
-                    "fmt/float_to_str", "fmt/decimal_to_str"]
+                    "num/orientation<1e-4", "fmt/float_to_str"]
 WORKERS = {"quick": 1, "thorough": 8}
 
 XS_DECIMAL = re.compile(r"[+-]?([0-9]+(\.[0-9]*)?|\.[0-9]+)\Z")
@@ -474,16 +474,24 @@ def xsd_key(err):
     return f"C03/xsd/{err.type_name.replace('SCHEMAV_', '').lower()}/{where}"
 
 
-def number_tags(ctx, root):
-    for e in root.iter():
-        if not isinstance(e.tag, str):
-            continue
-        if e.tag in ("length", "width", "radius") and e.text and XS_DECIMAL.match(e.text):
-            try:
-                if 0 < float(e.text) < 1e-4:
-                    ctx.tag("num/length<1e-4")
-            except ValueError:
-                pass
+def number_tags(ctx, spec):
+    """Coverage buckets from the generated spec (not from the output): small lengths, exponent-form reprs."""
+    def walk(o):
+        if isinstance(o, dict):
+            if o.get("k") == "rect" and (0 < o["l"] < 1e-4 or 0 < o["w"] < 1e-4):
+                ctx.tag("num/length<1e-4")
+            if o.get("k") == "circ" and 0 < o["r"] < 1e-4:
+                ctx.tag("num/length<1e-4")
+            if o.get("k") == "rect" and 0 < abs(o["o"]) < 1e-4:
+                ctx.tag("num/orientation<1e-4")
+            for v in o.values():
+                walk(v)
+        elif isinstance(o, list):
+            for v in o:
+                walk(v)
+        elif isinstance(o, float) and o != 0 and (abs(o) >= 1e16):
+            ctx.tag("num/coordinate>=1e16")
+    walk(spec)
 
 
 def scan_numbers(root):
@@ -533,6 +541,7 @@ def run_doc(ctx, spec, mutants=8, correspond=True):
         return
     ctx.case(case)
     ctx.tag(f"precision/{spec['precision']}")
+    number_tags(ctx, spec)
     if st == "write":
         ctx.fail(f"C03/write/raises-{err_class(payload)}", f"XMLFileWriter.write_to_file raised {type(payload).__name__}: "
                  f"{str(payload)[:200]}", case)
@@ -553,7 +562,6 @@ def run_doc(ctx, spec, mutants=8, correspond=True):
     # ---- oracle 2: plain decimal notation everywhere
     for where, text in scan_numbers(root)[:3]:
         ctx.fail(f"C03/number/not-plain-decimal/{where}", f"<{where}> is written as {text!r} (exponent form / nan / inf)", case)
-    number_tags(ctx, root)
     # ---- oracle 3: the library's own reader
     from commonroad.common.file_reader import CommonRoadFileReader
     try:
@@ -590,8 +598,8 @@ def run_doc(ctx, spec, mutants=8, correspond=True):
         kind = mutate(r, m)
         if kind is None:
             continue
-        mdoc = etree.ElementTree(m)
-        mok, merrs = lxml_verdict(mdoc)
+        m = etree.fromstring(etree.tostring(m))      # validate the document (bytes), not the in-memory artefacts of the edit
+        mok, merrs = lxml_verdict(etree.ElementTree(m))
         mres = ctx.driver.ask("C03", "validate", {"doc": tree_json(m)})
         ctx.tag(f"mutant/{kind}", "mutant/valid" if mok else "mutant/invalid")
         if mok != mres["valid"]:
